@@ -120,7 +120,13 @@ def _translate_method(cls_name, fields, fn: ast.FunctionDef):
                     envterm = f"[(f_{k.args[0].attr}, {tr.tr(val)})]"
                     tr2 = ExprTranslator(tr.names, tr.self_fields, tr.funcs, {**tr.envs, tgt: envterm})
                     return tr_block(rest, tr2, opt_bound)
-            raise Untranslatable(f"assignment {ast.unparse(st)}")
+            # x = <an expression over what is already known>: a local name, inlined
+            try:
+                val = tr.tr(v)
+            except Untranslatable:
+                raise Untranslatable(f"assignment {ast.unparse(st)}")
+            tr2 = ExprTranslator({**tr.names, tgt: val}, tr.self_fields, tr.funcs, tr.envs)
+            return tr_block(rest, tr2, opt_bound)
         if isinstance(st, ast.If) and not rest:
             t = st.test
             # self.f is not None
